@@ -69,7 +69,9 @@ def run(ctx: Context) -> None:
         for mod, cn in (("connection", "AsyncHTTPConnection"), ("http11", "AsyncHTTP11Connection"), ("http2", "AsyncHTTP2Connection")):
             f = N.func(mod, f"{cn}.handle_async_request")
             first = next(iter(effective_body(f.node.body)), None)
-            ok = isinstance(first, ast.If) and norm(first.test) == "notself.can_handle_request(request.url.origin)" and any(isinstance(x, ast.Raise) for x in first.body)
+            from .common import entry_gate
+
+            ok = entry_gate(f.node.body, "self.can_handle_request(request.url.origin)", "RuntimeError")
             rep.ob("C10.R1", fkey(tree, f, "entry-gate"), ok, where(f, first), "request routine starts with the origin gate raising RuntimeError")
         # ---- R2
         _r2(ctx, tree, N)
@@ -220,16 +222,24 @@ def _tls(ctx: Context, tree: str, N: Names) -> None:
     for cls_name, (f, s, field) in sites.items():
         callee = next(c.func for c in s.callees if c.func is not None and c.func.name == "start_tls")
         kw = kwargs_of(ctx, s.node, callee, f)
-        want = f"request.extensions.get('sni_hostname',None)or{field}.host.decode('ascii')"
+        want = f"request.extensions.get('sni_hostname')or{field}.host.decode('ascii')"
         rep.ob("C10.R4", fkey(tree, f, "server_hostname"), kw.get("server_hostname") == [want], where(f, s.node),
                f"server_hostname <- {kw.get('server_hostname')}; must be [{want}]")
         alpn_calls = calls_named(f, "set_alpn_protocols")
         ok = False
         vals = {}
         if alpn_calls:
+            from ..norm import run_to
+
             for h2 in (True, False):
-                alts = ctx.prov.expand(alpn_calls[0].args[0], f, alpn_calls[0])
-                vals[h2] = [peval(a, {"self._http2": h2}) for a in alts]
+                # interpret the routine up to the call (handles `x = [..]; if self._http2: x.append("h2")` as well as a conditional expression)
+                env: dict = {"self._http2": h2}
+                if run_to(f.node.body, alpn_calls[0], env) == "hit":
+                    v = peval(alpn_calls[0].args[0], env)
+                    vals[h2] = [list(v) if isinstance(v, (list, tuple)) else v]
+                else:
+                    alts = ctx.prov.expand(alpn_calls[0].args[0], f, alpn_calls[0])
+                    vals[h2] = [peval(a, {"self._http2": h2}) for a in alts]
             ok = vals.get(True) == [["http/1.1", "h2"]] and vals.get(False) == [["http/1.1"]]
             ctx_same = kw.get("ssl_context") is not None and norm(alpn_calls[0].func.value) in [x.split("(")[0] for x in ["ssl_context"]]
             ok = ok and ctx_same
